@@ -10,7 +10,7 @@ RULE = ("table-driven, exhaustive over aliasing patterns: for every public opera
         "Frobenius), Affine, Projective/G1/G2 (incl. every scalar-multiplication routine, endomorphism, Frobenius), final_exponentiation and every bls12_381 C "
         "function with a result pointer: ALL set partitions of {output} U {inputs of the output's type that the signature does not mark __restrict} (out=a, out=b, "
         "a=b, out=a=b, ...) x a small operand alphabet chosen to trigger shortcuts (zero, one, identity, equal / opposite points, top-of-range scalars) on 3 back "
-        "ends; oracle: same bytes as the call with all objects distinct (whose value is tied to the model by C02-C07). distinct by construction; non-trivial = "
+        "ends; oracle: same bytes (Jacobian points: same group element) as the call with all objects distinct (whose value is tied to the model by C02-C07). distinct by construction; non-trivial = "
         "pattern other than all-distinct")
 ASSUMPTIONS = ["operands marked __restrict in the C++ signatures are exempt (DESIGN.md appendix C); the C interface marks nothing, so all patterns apply there",
                "scheme-level (wkdibe/lqibe) functions are outside this property's layers"]
@@ -212,6 +212,15 @@ def eval_case(case):
     r1 = run_op(L, fn, otyp, ityps, extras, vals, ev, pattern)
     if r1 is None:
         return []
+    if r0 != r1 and otyp in ("g1", "g2"):
+        # a Jacobian result is a group element: another representative of the same point is the same result (what the property asks for);
+        # compared by the definition (x/z^2, y/z^3) in the Python model
+        g = 1 if otyp == "g1" else 2
+        try:
+            if L.unproj(r0, g) == L.unproj(r1, g):
+                return []
+        except Exception:
+            pass
     if r0 != r1:
         names = {-1: "out"}
         names.update({i: "abcdefg"[i] for i in range(len(ityps))})
